@@ -65,6 +65,9 @@ pub struct TextCase {
     pub n: u8,
     pub v: Vec<String>,
     pub c: char,
+    /// an earlier mock-induced panic about ANOTHER call was raised and caught on the same mock
+    #[serde(default)]
+    pub prior_error: bool,
 }
 
 #[derive(Clone, Copy, Debug, PartialEq, Eq, Serialize, Deserialize)]
@@ -128,6 +131,21 @@ pub fn expected_call(case: &TextCase) -> String {
 
 pub fn check(case: &TextCase, oracle: Oracle) -> Result<CaseInfo, String> {
     let original = Unimock::new(setup(case.kind)).no_verify_in_drop();
+    if case.prior_error {
+        // a different call fails first (unmentioned or unmatched method); its error must not leak into the next one
+        let r = if case.kind == Kind::NoMatchOpt {
+            catch(|| {
+                original.t_un(String::from("prior"));
+            })
+        } else {
+            catch(|| {
+                original.t_opt(None, &[]);
+            })
+        };
+        if r.is_ok() {
+            return Err("HARNESS: the prior failing call did not panic".into());
+        }
+    }
     let r: Result<(), String> = match case.via {
         Via::Original => catch(|| trigger(case, &original)),
         Via::Clone => {
@@ -174,6 +192,7 @@ pub fn check(case: &TextCase, oracle: Oracle) -> Result<CaseInfo, String> {
         .class_if(longest >= 64, "argument>=64-bytes")
         .class_if(longest >= 200, "argument>=200-bytes")
         .class_if(case.via != Via::Original, "through-a-clone")
+        .class_if(case.prior_error, "after-an-earlier-caught-mock-error")
         .class(match case.kind {
             Kind::NoMatchT | Kind::NoMatchTv | Kind::NoMatchOpt => "kind:no-matching-call-patterns",
             Kind::Unmentioned => "kind:no-mock-implementation",
@@ -206,8 +225,9 @@ pub fn case_strategy() -> impl Strategy<Value = TextCase> {
         any::<u8>(),
         vec(string_strategy(), 0..4),
         any::<char>(),
+        proptest::bool::weighted(0.3),
     )
-        .prop_map(|(k, via, s, n, v, c)| TextCase { kind: KINDS[k], via, s, n, v, c })
+        .prop_map(|(k, via, s, n, v, c, prior_error)| TextCase { kind: KINDS[k], via, s, n, v, c, prior_error })
 }
 
 pub const RULE: &str = "text-arguments = every mock-induced error kind about a call whose arguments are generated Unicode strings (printable ASCII, multi-byte and combining characters, quotes and backslashes, control characters, an ASCII prefix of every length 0..140 and around 256 / 512 / 1024 / 4096 followed by multi-byte characters, runs of up to 700 two-byte characters, proptest's arbitrary strings), as &str, String, Vec<String>, Option<&str>, &[String] and char parameters, raised on the original, on a clone, or on a clone in a thread that is joined; non-trivial = a non-ASCII argument or an argument of >= 32 bytes";
